@@ -21,12 +21,18 @@ def c02(c):
         "scheduling point in front, an observer hook behind, the operation itself unchanged; both are no-ops outside tier G)",
         "overlay/add/zz_verif_readpath.go VerifRPAsyncEvent repeats the event dispatch of poller_epoll.go readWriteLoop for an "
         "IN / RDHUP event in async mode (flag store, one AsyncRead call); it is kept in step with that loop by hand - tier R runs the loop itself",
+        "tier G simulates epoll's side of a one-shot registration (armed / on the ready list; EPOLL_CTL_MOD of the write side as a script "
+        "step) in the harness with the rules K3 of the model; the real kernel's one-shot behaviour is exercised by tier R",
         "Go harness cmd/readpath (generators, position-tagged streams, numbered datagrams, CLOCK_PROCESS_CPUTIME_ID idle windows)",
     ]
     c.assumptions += [
-        "modelled and proved for all action sequences: the per-event read loop (sync LT / ET / ONESHOT and the ONESHOT branch of AsyncRead) "
-        "incl. the read limit in LT, the short-read exit, re-arming, readToEOF + close on a half-close event; the readEvents gate of "
-        "AsyncRead incl. the readEOF hand-over to the task; the UDP address key and the session map",
+        "modelled and proved for all action sequences: the per-event read loop (synchronous reading, LT / ET / ONESHOT) incl. the read "
+        "limit in LT, the short-read exit, re-arming by the poller and by the write side, readToEOF + close on a half-close event; "
+        "AsyncRead under ET with and without ONESHOT: the readEvents gate, the readEOF hand-over to the task, one-shot disarming on "
+        "report, re-arming by the exiting task and by any EPOLL_CTL_MOD of the write side (Write / flush / dial completion), the window "
+        "between epoll_wait's report and the gate step; the UDP address key and the session map",
+        "a shutdown of the peer that lands between epoll_wait's report and the poller's gate step is ordered behind the gate step "
+        "(the two steps commute); a repeated store of readEOF = 1 is not an action of the model",
         "not modelled: EINTR retries; the ET read limit 2^31-1 is treated as unbounded; fatal read errors; user OnRead handlers; "
         "a connection closed by the application or by a write error while a read task runs; the zero-length read buffer of finding D5 "
         "is excluded by the configuration type (buffer length = n+1)",
@@ -48,7 +54,7 @@ HARNESSES = [("readpath", True)]
 MANIFEST = {
     "C02": dict(
         technique="Coq proof (invariants by induction over all action sequences of two LTSs: read loop x {LT, ET, ONESHOT} and the "
-                  "AsyncRead gate; explicit termination measures) + real-socket configuration matrix with an implementation-only "
+                  "AsyncRead under ET with / without ONESHOT; explicit termination measures) + real-socket configuration matrix with an implementation-only "
                   "oracle + the real AsyncRead gate under a cooperative scheduler, differential against the extracted gate LTS",
         text="coq/readpath: ReadLoop.v (per-event read loop of poller_epoll.go / ONESHOT branch of AsyncRead against a kernel receive buffer "
              "and LT / ET / ONESHOT epoll, any buffer size > 0, any read limit, half-close handling) and Gate.v (the readEvents gate of "
@@ -57,17 +63,22 @@ MANIFEST = {
              "c02_prefix_async (delivered is a prefix of sent: in order, exactly once), c02_no_lost_edge_lt/_et/_oneshot/_async (unread data or "
              "an unprocessed end of stream always has a deliverable event or a live reader), c02_complete / c02_complete_async (at quiescence "
              "delivered = sent), c02_eof / c02_eof_async (closed only after the last byte, and the close is not forgotten), c02_one_reader, "
-             "c02_one_reader_oneshot, c02_counter_range (readEvents in {0,1,2}, 0 iff no task), c02_idle / c02_idle_async (explicit measure: "
+             "(one-shot mode included, with arbitrary re-arming by the write side), c02_counter_range (readEvents in {0,1,2}, 0 iff no "
+             "task), c02_idle / c02_idle_async (explicit measure: "
              "without new input only finitely many steps - nobody spins), c02_udp_key_inj, c02_udp_session, c02_udp_boundaries, "
              "c02_udp_attribution; refutations c02_old_gate_refuted (D22) and c02_d28_refuted (D28). Every run: (R) real engines on loopback "
              "tcp / unix / udp sockets over {LT, ET, ET+ONESHOT} x {sync, AsyncReadInPoller} x {default, custom IOExecute} x NPoller{1,2,4} x "
              "ReadBufferSize{7,512,64K} x MaxConnReadTimesPerEventLoop{1,3,default} (quick: 36 cells drawn from the seed, all 18 mode x read "
-             "kind x transport combinations; thorough: all 972), accepted and AddConn'ed connections, OnData / OnDataPtr, bursts around the "
+             "kind x transport combinations; thorough: all 972), accepted and AddConn'ed connections, connections the engine "
+             "dials (DialAsync with the pollers kept busy - connect completion and greeting in one event - and idle; Dial + AddConn with "
+             "the greeting already in the socket; the greeting must be delivered without further input), a write-back load that switches "
+             "the write interest while the connection is read, OnData / OnDataPtr, bursts around the "
              "buffer and limit thresholds, pauses, half-close right behind the data and after delivery in every stream cell, numbered "
              "datagrams in bursts of 6-20 from 2-4 remotes with short-then-long pairs; what the callback received per connection must equal "
              "what was sent, no overlapping callbacks per connection, one *Conn per remote, idle CPU after the traffic (three windows); "
              "ONESHOT cells with several fresh engines. (G) thousands of seeded schedules of the real AsyncRead against real socket pairs: "
-             "one reader, counter range, termination, everything delivered, close after half-close; every recorded linearisation point is "
+             "(ET and one-shot, with re-arming EPOLL_CTL_MODs of the write side): one reader, counter range, termination, everything "
+             "delivered, close after half-close, descriptor armed at quiescence; every recorded linearisation point is "
              "replayed in the extracted Gate LTS and must be enabled there with the same counter, byte counts, close and delivered sequence.",
         note="Partial: kernel and epoll semantics (K2, K3) and the executor contract are assumptions of the models; the tie between "
              "poller.readWriteLoop and ReadLoop.v is the real-socket oracle, not a step-by-step correspondence (only the gate has one). "
